@@ -294,6 +294,8 @@ rc::Gen<Op> genOp() {
         gen::map(bits, [](uint32_t b) { return Op{SetVEnable, b, 0, 0}; }),
         gen::map(gen::tuple(vf::range<uint32_t>(0, 16), vf::range<uint32_t>(0x100, 0x1E000), vf::range<uint32_t>(0, 2)),
                  [](std::tuple<uint32_t, uint32_t, uint32_t> t) { return Op{SetVector, std::get<0>(t), std::get<1>(t), std::get<2>(t)}; }),
+        gen::map(gen::tuple(vf::range<uint32_t>(0, 16), vf::range<uint32_t>(0x28000, 0x3E000), vf::range<uint32_t>(0, 2)),
+                 [](std::tuple<uint32_t, uint32_t, uint32_t> t) { return Op{SetVector, std::get<0>(t), std::get<1>(t), std::get<2>(t)}; }),
         gen::map(vf::range<uint32_t>(0, 1u << 13), [](uint32_t v) { return Op{PokeCore, v, 0, 0}; }),
         gen::map(vf::range<uint32_t>(0, 1u << 13), [](uint32_t v) { return Op{PokeCore, v | 0x0F, 0, 0}; }), // everything enabled
         gen::map(gen::pair(gen::element<uint32_t>(1, 1, 2, 3, 3, 4, 5), vf::range<uint32_t>(0, 6)), [](std::pair<uint32_t, uint32_t> p) { return Op{Exec, p.first, p.second, 0}; }),
@@ -404,10 +406,14 @@ vf::Result check(const Case& cs) {
         const Op& op = cs[i];
         std::string ctx = kKindName[op.kind];
         vf::Result r;
-        if (m.regs[flat::F_pc] > 0x1C000) {
-            vf::klass("history stopped: the nop sled would run into the data area");
+        // the sled: program pages 0/1 up to 0x1C000, and the part of pages 2/3 (= data memory, all zero) that neither the stack nor
+        // the DMA operation ever writes
+        if ((m.regs[flat::F_pc] > 0x1C000 && m.regs[flat::F_pc] < 0x28000) || m.regs[flat::F_pc] > 0x3F000) {
+            vf::klass("history stopped: the nop sled would run into used data memory");
             break;
         }
+        if (m.regs[flat::F_pc] >= 0x28000)
+            vf::klass("executing in program page 2 / 3");
         switch (op.kind) {
         case Step:
             trace += "step*" + std::to_string(op.a) + " ";
